@@ -84,7 +84,7 @@ Cur == IF rec.kind # "absent" /\ now < rec.at + TTL THEN rec ELSE Absent      \*
 LastSeq == Cur.rev
 
 NoOp == [kind |-> None, ph |-> None, exp |-> 0, tok |-> 0, at |-> 0, ok |-> FALSE, res |-> 0,
-         err |-> None, rid |-> None, rtok |-> 0, rprio |-> 0, lost |-> FALSE]
+         err |-> None, rid |-> None, rtok |-> 0, rprio |-> 0, lost |-> FALSE, own |-> FALSE]
 Idle == [pc |-> "idle", due |-> 0, op |-> NoOp, gen |-> 0, term |-> 0, n |-> 0, aux |-> 0]
 
 El0 == [life |-> "init", alive |-> FALSE, ctxnil |-> TRUE, gen |-> 0,
@@ -93,12 +93,15 @@ El0 == [life |-> "init", alive |-> FALSE, ctxnil |-> TRUE, gen |-> 0,
         cb |-> 0,          \* promotions minus demotions (callbacks)
         ctxOpen |-> {},    \* terms whose promotion context is not cancelled
         part |-> FALSE, conn |-> "connected", grace |-> -1, wasLeader |-> FALSE,
-        stopRet |-> FALSE]
+        stopRet |-> FALSE,
+        lostAt |-> -1,     \* ghost: when the record of this claiming instance stopped being its own
+        lastDisc |-> -1, pdue |-> -1]   \* ghost: latest disconnect notification; grace deadline the property demands
 
 G0 == [starts |-> 0, stops |-> 0, faults |-> 0, outside |-> 0, unhealthy |-> 0, connev |-> 0, api |-> 0,
        tokens |-> {}, viol |-> {}, overflow |-> FALSE,
        calm |-> TRUE,     \* C02 assumptions hold so far
-       quiet |-> TRUE]    \* C07 assumptions hold so far
+       quiet |-> TRUE,    \* C07 assumptions hold so far
+       vacSince |-> -1]   \* ghost: since when the record is vacant while a ready candidate exists (C06)
 
 Init ==
   /\ now = 0 /\ rec = Absent /\ seq = 0 /\ ntok = 0 /\ orph = {}
@@ -134,7 +137,8 @@ BecomeLeader(i, s, tok, rev) ==
       e2 == [e EXCEPT !.hcnt = IF Dv("health_not_reset") THEN @ ELSE 0,
                       !.leader = TRUE, !.lid = i, !.tok = tok, !.rev = rev, !.state = "LEADER",
                       !.term = term, !.termAlive = TRUE,
-                      !.cb = @ + 1, !.ctxOpen = (IF Dv("promote_ctx_is_election_ctx") THEN @ ELSE {}) \cup {term}]
+                      !.cb = @ + 1, !.ctxOpen = (IF Dv("promote_ctx_is_election_ctx") THEN @ ELSE {}) \cup {term},
+                      !.lostAt = -1, !.pdue = -1]
       hb  == [Idle EXCEPT !.pc = "wait", !.due = now + H, !.gen = e.gen, !.term = term]
       val == IF VI > 0 THEN [Idle EXCEPT !.pc = "wait", !.due = now + VI, !.gen = e.gen, !.term = term] ELSE Idle
       \* a loop of an older term that is still alive is replaced only if it is idle; otherwise the
@@ -143,14 +147,14 @@ BecomeLeader(i, s, tok, rev) ==
                         !["val"] = val]
       gg == IF e.leader THEN Viol(s.g, "C08_second_promotion_without_demotion") ELSE s.g
       gg2 == IF e.cb # 0 THEN Viol(gg, "C08_promotion_without_preceding_demotion") ELSE gg
-  IN St(e2, t2, gg2, s.w)
+  IN St(e2, t2, [gg2 EXCEPT !.vacSince = -1], s.w)
 
 \* becomeFollower(): returns in .was whether a term ended
 BecomeFollower(i, s) ==
   LET e == s.e IN
   IF (e.ctxnil \/ ~e.alive) /\ ~Dv("claim_after_stop") THEN [s EXCEPT !.w = s.w] @@ [was |-> FALSE]
   ELSE
-  LET e2 == [e EXCEPT !.leader = FALSE, !.state = "FOLLOWER", !.termAlive = FALSE,
+  LET e2 == [e EXCEPT !.leader = FALSE, !.state = "FOLLOWER", !.termAlive = FALSE, !.lostAt = -1, !.pdue = -1,
                       !.ctxOpen = IF Dv("promote_ctx_is_election_ctx") THEN @ ELSE {},
                       !.wrun = TRUE]
       spawn == ~e.ctxnil /\ ~e.wrun
@@ -208,7 +212,10 @@ ApplyRes(i, o) ==
     [] o.kind = "delete" -> [ok |-> TRUE, res |-> seq + 1, err |-> None, mut |-> TRUE]
     [] o.kind = "watch" -> [ok |-> TRUE, res |-> 0, err |-> None, mut |-> FALSE]
 
-\* effect on rec/seq/wq/g of a successful mutation by i
+\* a follower whose watch loop is established and that can reach the store
+ReadyCand(j) == el[j].life = "running" /\ ~el[j].part /\ ~el[j].leader /\ th[j]["w"].pc \in {"loop", "chk"}
+
+\* effect on rec/seq/wq/g/el of a successful mutation by i
 Mutate(i, o) ==
   LET del == o.kind = "delete"
       nrec == IF del THEN [Absent EXCEPT !.kind = "tomb", !.rev = seq + 1, !.at = now, !.writer = i]
@@ -227,7 +234,9 @@ Mutate(i, o) ==
       \* a leader loses its record (C02/C07): somebody else's write or a delete while it claims
       lost == {j \in Inst : el[j].leader /\ Live /\ rec.id = j /\ rec.tok = el[j].tok /\ (del \/ j # i)}
       g4 == IF lost # {} /\ g.calm THEN Viol(g3, "C02_record_lost_while_claiming") ELSE g3
-  IN /\ rec' = nrec /\ seq' = seq + 1 /\ wq' = Notify(ev) /\ g' = g4
+      g5 == IF del /\ Live /\ (\E j \in Inst : j # i /\ ReadyCand(j)) THEN [g4 EXCEPT !.vacSince = now] ELSE g4
+  IN /\ rec' = nrec /\ seq' = seq + 1 /\ wq' = Notify(ev) /\ g' = g5
+     /\ el' = [j \in Inst |-> IF j \in lost THEN [el[j] EXCEPT !.lostAt = now] ELSE el[j]]
 
 \* the store applies the operation of thread s
 StoreApply(i, s) ==
@@ -236,23 +245,24 @@ StoreApply(i, s) ==
   /\ th' = [th EXCEPT ![i][s].op = [o EXCEPT !.ph = "app", !.ok = r.ok, !.res = r.res, !.err = r.err,
                                              !.rid = IF o.kind = "get" /\ r.ok THEN rec.id ELSE None,
                                              !.rtok = IF o.kind = "get" /\ r.ok THEN rec.tok ELSE 0,
-                                             !.rprio = IF o.kind = "get" /\ r.ok THEN rec.prio ELSE 0]]
+                                             !.rprio = IF o.kind = "get" /\ r.ok THEN rec.prio ELSE 0,
+                                             !.own = @ \/ (o.kind = "get" /\ r.ok /\ el[i].leader /\ rec.id = i /\ rec.tok = el[i].tok)]]
   /\ IF r.mut THEN Mutate(i, o)
      ELSE IF o.kind = "watch"
           THEN /\ wq' = [wq EXCEPT ![i] = (IF Cur.kind = "val" THEN <<[k |-> "val", id |-> rec.id, prio |-> rec.prio, rev |-> rec.rev]>>
                                            ELSE IF Cur.kind = "tomb" THEN <<[k |-> "del", id |-> None, prio |-> 0, rev |-> rec.rev]>> ELSE <<>>)
                                           \o <<[k |-> "nil", id |-> None, prio |-> 0, rev |-> 0]>>]
-               /\ UNCHANGED <<rec, seq, g>>
-          ELSE UNCHANGED <<rec, seq, wq, g>>
-  /\ UNCHANGED <<now, ntok, el, orph>>
+               /\ UNCHANGED <<rec, seq, g, el>>
+          ELSE UNCHANGED <<rec, seq, wq, g, el>>
+  /\ UNCHANGED <<now, ntok, orph>>
 
 \* an abandoned operation is applied later (its answer goes nowhere)
 OrphApply(o) ==
   /\ o \in orph /\ ~el[o.i].part
   /\ orph' = orph \ {o}
   /\ LET r == ApplyRes(o.i, o) IN
-     IF r.mut THEN Mutate(o.i, o) ELSE UNCHANGED <<rec, seq, wq, g>>
-  /\ UNCHANGED <<now, ntok, el, th>>
+     IF r.mut THEN Mutate(o.i, o) ELSE UNCHANGED <<rec, seq, wq, g, el>>
+  /\ UNCHANGED <<now, ntok, th>>
 OrphDrop(o) == o \in orph /\ orph' = orph \ {o} /\ UNCHANGED <<now, rec, seq, ntok, wq, el, th, g>>
 
 \* faults
@@ -298,8 +308,10 @@ OutsideDelete ==
   /\ rec' = [Absent EXCEPT !.kind = "tomb", !.rev = seq + 1, !.at = now, !.writer = "outside"]
   /\ seq' = seq + 1
   /\ wq' = Notify([k |-> "del", id |-> None, prio |-> 0, rev |-> seq + 1])
-  /\ g' = [g EXCEPT !.outside = @ + 1, !.calm = FALSE, !.quiet = FALSE]
-  /\ UNCHANGED <<now, ntok, el, th, orph>>
+  /\ g' = [g EXCEPT !.outside = @ + 1, !.calm = FALSE, !.quiet = FALSE,
+                    !.vacSince = IF \E j \in Inst : ReadyCand(j) THEN now ELSE @]
+  /\ el' = [j \in Inst |-> IF el[j].leader /\ rec.id = j /\ rec.tok = el[j].tok THEN [el[j] EXCEPT !.lostAt = now] ELSE el[j]]
+  /\ UNCHANGED <<now, ntok, th, orph>>
 
 \* ---------------------------------------------------------------------------
 \* attemptAcquire, shared by the start goroutine ("acq"), takeover attempts ("tko") and rounds
@@ -373,7 +385,11 @@ HbFailure(i, st, err) ==
   LET t == st.t["hb"] IN
   IF Permanent(err) \/ t.n + 1 >= (IF Dv("four_failures") THEN 4 ELSE 3)
   THEN LET r == DemoteBy(i, st) IN [r EXCEPT !.t["hb"] = Idle]
-  ELSE [st EXCEPT !.t["hb"] = [t EXCEPT !.pc = "wait", !.due = @ + H, !.op = NoOp, !.n = t.n + 1]]
+  ELSE LET \* C03: a refresh attempt that reached the store after the record was lost (definite answer) or the third failure in a
+           \* row must end the term
+           gg == IF (st.e.lostAt >= 0 /\ err \in {"conflict", "notfound"}) \/ t.n + 1 >= ToleratedFailures
+                 THEN Viol(st.g, "C03_not_demoted_at_completion_of_heartbeat") ELSE st.g
+       IN [st EXCEPT !.t["hb"] = [t EXCEPT !.pc = "wait", !.due = @ + H, !.op = NoOp, !.n = t.n + 1], !.g = gg]
 
 HbTick(i) ==
   LET t == T(i, "hb") IN
@@ -391,9 +407,11 @@ HbHealth(i, healthy) ==
   /\ t.pc = "health"
   /\ (~healthy => g.unhealthy < MaxUnhealthy)
   /\ IF healthy
-     THEN /\ el' = [el EXCEPT ![i].hcnt = 0]
-          /\ th' = [th EXCEPT ![i]["hb"] = [t EXCEPT !.pc = "upd", !.op = MkOp("update", e.rev, e.tok)]]
-          /\ UNCHANGED <<g, wq>>
+     THEN IF (TermDone(i, t) \/ ~e.leader) /\ ~Dv("hb_no_recheck_after_health")
+          THEN th' = [th EXCEPT ![i]["hb"] = Idle] /\ UNCHANGED <<el, g, wq>>     \* the check took long: the term is over
+          ELSE /\ el' = [el EXCEPT ![i].hcnt = 0]
+               /\ th' = [th EXCEPT ![i]["hb"] = [t EXCEPT !.pc = "upd", !.op = MkOp("update", e.rev, e.tok)]]
+               /\ UNCHANGED <<g, wq>>
      ELSE LET cnt == e.hcnt + 1
               st0 == [Cur3(i) EXCEPT !.e.hcnt = cnt, !.g.unhealthy = @ + 1, !.g.calm = FALSE, !.g.quiet = FALSE]
           IN IF (IF Dv("health_gt") THEN cnt > HN[i] ELSE cnt >= HN[i])
@@ -481,6 +499,7 @@ WatchExit(i) ==
 WatchEvent(i) ==
   LET t == T(i, "w") e == el[i] IN
   /\ t.pc = "loop" /\ wq[i] # <<>>
+  /\ (~CtxDone(i, t) \/ Dv("watch_acts_after_cancel"))
   /\ LET ev == Head(wq[i])
          st0 == [Cur3(i) EXCEPT !.w = Tail(wq[i])]
      IN
@@ -540,7 +559,7 @@ StopBegin(i, kind) ==
   /\ LET e == el[i]
          e2 == [e EXCEPT !.life = "stopping", !.alive = FALSE, !.wasLeader = e.leader,
                          !.leader = IF Dv("stop_keeps_claim") THEN @ ELSE FALSE, !.state = "STOPPED", !.wrun = FALSE,
-                         !.termAlive = FALSE, !.ctxOpen = {}, !.grace = -1]
+                         !.termAlive = FALSE, !.ctxOpen = {}, !.grace = -1, !.pdue = -1, !.lostAt = -1]
      IN /\ el' = [el EXCEPT ![i] = e2]
         /\ th' = [th EXCEPT ![i]["stp"] = [Idle EXCEPT !.pc = "wait", !.due = now + 20 * H, !.aux = IF kind = "stop" THEN 0 ELSE IF kind = "ctx" THEN 1 ELSE 2]]
   /\ g' = [g EXCEPT !.stops = @ + 1]
@@ -587,6 +606,88 @@ StopFinish(i) ==
   /\ g' = IF e.wasLeader /\ e.cb # 1 THEN Viol(g, "C08_demotion_without_matching_promotion") ELSE g
   /\ UNCHANGED <<now, rec, seq, ntok, wq, orph>>
 
+
+\* ---------------------------------------------------------------------------
+\* ValidateToken / ValidateTokenOrDemote (API goroutine "api")
+ApiValidate(i, vod) ==
+  /\ g.api < MaxApi /\ el[i].life = "running" /\ th[i]["api"].pc = "idle"
+  /\ g' = [g EXCEPT !.api = @ + 1]
+  /\ IF ~el[i].leader /\ ~Dv("validate_without_leader_gate")
+     THEN UNCHANGED th                                                      \* ErrNotLeader: false, nothing to demote
+     ELSE th' = [th EXCEPT ![i]["api"] = [Idle EXCEPT !.pc = "get", !.gen = el[i].gen, !.aux = IF vod THEN 1 ELSE 0,
+                                                     !.op = [MkOp("get", 0, el[i].tok) EXCEPT
+                                                               !.own = el[i].leader /\ Live /\ rec.id = i /\ rec.tok = el[i].tok]]]
+  /\ UNCHANGED <<now, rec, seq, ntok, wq, el, orph>>
+
+ApiGetResp(i) ==
+  LET t == T(i, "api") o == t.op
+      valid == IF Dv("validate_fast_path") THEN o.ok /\ (o.res = el[i].rev \/ (o.rid = i /\ o.rtok = o.tok))
+               ELSE o.ok /\ o.rid = i /\ o.rtok = o.tok
+      gg == IF valid /\ ~o.own THEN Viol(g, "C04_true_without_owning_record") ELSE g
+  IN
+  /\ t.pc = "get" /\ o.ph = "app"
+  /\ IF ~valid /\ t.aux = 1 /\ el[i].leader
+     THEN Commit(i, LET r == DemoteBy(i, [Cur3(i) EXCEPT !.g = gg]) IN [r EXCEPT !.t["api"] = Idle])
+     ELSE th' = [th EXCEPT ![i]["api"] = Idle] /\ g' = gg /\ UNCHANGED <<el, wq>>
+  /\ UNCHANGED <<now, rec, seq, ntok, orph>>
+
+\* ---------------------------------------------------------------------------
+\* connection monitoring (connection.go)
+Disconnect(i) ==
+  /\ CONN[i] /\ g.connev < MaxConnEv /\ el[i].life = "running"
+  /\ LET e == el[i] IN
+     el' = [el EXCEPT ![i] = [e EXCEPT !.conn = "disconnected", !.lastDisc = now,
+                                       !.grace = IF e.leader THEN now + GRACE ELSE e.grace,
+                                       !.pdue = IF e.leader THEN now + GRACE ELSE e.pdue]]
+  /\ g' = [g EXCEPT !.connev = @ + 1, !.quiet = FALSE]
+  /\ UNCHANGED <<now, rec, seq, ntok, wq, th, orph>>
+
+Reconnect(i) ==
+  /\ CONN[i] /\ g.connev < MaxConnEv /\ el[i].life = "running" /\ th[i]["vfy"].pc = "idle"
+  /\ el' = [el EXCEPT ![i].conn = "reconnected", ![i].grace = -1, ![i].pdue = -1]
+  /\ th' = IF el[i].leader THEN [th EXCEPT ![i]["vfy"] = [Idle EXCEPT !.pc = "sleep", !.due = now + 2, !.gen = el[i].gen]] ELSE th
+  /\ g' = [g EXCEPT !.connev = @ + 1, !.quiet = FALSE]
+  /\ UNCHANGED <<now, rec, seq, ntok, wq, orph>>
+
+Closed(i) ==
+  /\ CONN[i] /\ g.connev < MaxConnEv /\ el[i].life = "running"
+  /\ el' = [el EXCEPT ![i].conn = "closed"]
+  /\ g' = [g EXCEPT !.connev = @ + 1, !.quiet = FALSE]
+  /\ UNCHANGED <<now, rec, seq, ntok, wq, th, orph>>
+
+\* time.AfterFunc(gracePeriod): handleGracePeriodExpired
+GraceFire(i) ==
+  LET e == el[i] IN
+  /\ e.grace >= 0 /\ e.grace <= now
+  /\ IF e.conn \in (IF Dv("closed_suppresses_grace") THEN {"disconnected"} ELSE {"disconnected", "closed"}) /\ e.leader
+     THEN Commit(i, LET r == DemoteBy(i, [Cur3(i) EXCEPT !.e.grace = -1]) IN
+                    [r EXCEPT !.g = IF now < e.lastDisc + GRACE THEN Viol(@, "C11_grace_demotion_too_early") ELSE @])
+     ELSE el' = [el EXCEPT ![i].grace = -1] /\ UNCHANGED <<th, g, wq>>
+  /\ UNCHANGED <<now, rec, seq, ntok, orph>>
+
+\* verifyLeadershipAfterReconnect: sleep 100 ms, Get, validateToken (a second Get)
+VfySleepDone(i) ==
+  LET t == T(i, "vfy") IN
+  /\ t.pc = "sleep" /\ t.due <= now
+  /\ th' = [th EXCEPT ![i]["vfy"] = [t EXCEPT !.pc = "get1", !.op = MkOp("get", 0, el[i].tok)]]
+  /\ UNCHANGED <<now, rec, seq, ntok, wq, el, orph, g>>
+
+VerifyGetResp(i) ==
+  LET t == T(i, "vfy") o == t.op e == el[i] IN
+  /\ t.pc \in {"get1", "get2"} /\ o.ph = "app"
+  /\ IF t.pc = "get1" /\ o.ok
+     THEN th' = [th EXCEPT ![i]["vfy"] = [t EXCEPT !.pc = "get2", !.op = MkOp("get", 0, e.tok)]] /\ UNCHANGED <<el, g, wq>>
+     ELSE IF t.pc = "get2" /\ o.ok /\ o.rid = i /\ o.rtok = o.tok
+          THEN \* verification succeeded
+               /\ el' = [el EXCEPT ![i].conn = IF e.leader /\ (e.conn = "reconnected" \/ Dv("verify_sets_connected_after_newer_disconnect"))
+                                               THEN "connected" ELSE @]
+               /\ th' = [th EXCEPT ![i]["vfy"] = Idle] /\ UNCHANGED <<g, wq>>
+          ELSE \* handleReconnectVerificationFailed
+               IF e.leader /\ ~Dv("verification_failure_without_demotion")
+               THEN Commit(i, LET r == DemoteBy(i, Cur3(i)) IN [r EXCEPT !.t["vfy"] = Idle])
+               ELSE th' = [th EXCEPT ![i]["vfy"] = Idle] /\ UNCHANGED <<el, g, wq>>
+  /\ UNCHANGED <<now, rec, seq, ntok, orph>>
+
 \* ---------------------------------------------------------------------------
 \* time
 TimerSlots == {"hb", "val", "w"} \cup {RN(k) : k \in Rounds}
@@ -607,8 +708,15 @@ Ready(i, s) == LET t == T(i, s) IN
 Advance ==
   /\ now < MaxNow
   /\ \A i \in Inst, s \in Slots : ~Due(i, s) /\ ~Overdue(i, s) /\ ~Ready(i, s)
+  /\ \A i \in Inst : ~(el[i].grace >= 0 /\ el[i].grace <= now) /\ ~(th[i]["vfy"].pc = "sleep" /\ th[i]["vfy"].due <= now)
   /\ now' = now + 1
-  /\ UNCHANGED <<rec, seq, ntok, wq, el, th, orph, g>>
+  /\ LET expires == rec.kind = "val" /\ now < rec.at + TTL /\ now + 1 >= rec.at + TTL IN      \* silent expiry at the new instant
+     /\ el' = [j \in Inst |-> IF expires /\ el[j].leader /\ rec.id = j /\ rec.tok = el[j].tok THEN [el[j] EXCEPT !.lostAt = now + 1] ELSE el[j]]
+     /\ g' = IF expires
+             THEN LET g1 == IF g.calm /\ (\E j \in Inst : el[j].leader /\ rec.id = j) THEN Viol(g, "C02_record_expired_while_claiming") ELSE g IN
+                  [g1 EXCEPT !.vacSince = IF \E j \in Inst : ReadyCand(j) THEN now + 1 ELSE @]
+             ELSE g
+  /\ UNCHANGED <<rec, seq, ntok, wq, th, orph>>
 
 \* ---------------------------------------------------------------------------
 Next ==
@@ -627,6 +735,9 @@ Next ==
        \/ ValTick(i) \/ ValGetResp(i)
        \/ WatchOpenResp(i) \/ WatchExit(i) \/ WatchEvent(i) \/ CheckTick(i) \/ CheckResp(i)
        \/ Partition(i) \/ Heal(i) \/ DropEvent(i)
+       \/ \E v \in BOOLEAN : ApiValidate(i, v)
+       \/ ApiGetResp(i)
+       \/ Disconnect(i) \/ Reconnect(i) \/ Closed(i) \/ GraceFire(i) \/ VfySleepDone(i) \/ VerifyGetResp(i)
 
 Spec == Init /\ [][Next]_vars
 
@@ -647,5 +758,11 @@ C09_Final == \A i \in Inst : el[i].life = "stopped" => ~el[i].leader /\ el[i].st
 C18_Consistent == \A i \in Inst : (el[i].leader <=> el[i].state = "LEADER") /\ (el[i].leader => el[i].lid = i)
 C19_Ctx == \A i \in Inst : /\ (el[i].leader /\ el[i].termAlive => el[i].term \in el[i].ctxOpen)
                            /\ (~el[i].leader => el[i].ctxOpen = {})
+\* C06: a vacancy is filled within periodic check + maximum jitter + latencies while a ready candidate exists
+\* (only evaluated while no store fault has been injected; lost watch events are allowed)
+MaxJit == CHOOSE j \in JIT : \A k \in JIT : k <= j
+C06_Filled == (g.vacSince >= 0 /\ g.faults = 0 /\ \E j \in Inst : ReadyCand(j)) => now <= g.vacSince + CHK + MaxJit + 6 * LAT + 2
+\* C11: the leader is demoted when the grace period since the latest disconnect elapses without a reconnect
+C11_Grace == \A i \in Inst : el[i].pdue >= 0 /\ el[i].leader => now <= el[i].pdue
 TypeOK == /\ now \in 0..MaxNow /\ \A i \in Inst : el[i].cb \in -1..2
 =============================================================================
